@@ -2,6 +2,7 @@ package main
 
 import (
 	"fmt"
+	"github.com/mattn/anko/env"
 	"math"
 	"math/rand"
 	"reflect"
@@ -498,6 +499,67 @@ func streamEq(o *Out, r *rand.Rand, n int, thorough bool) {
 					o.Fail(Failure{Oracle: "containers-compare-structurally", Key: "eq-views:" + form.name, Input: setup + form.src,
 						Detail: fmt.Sprintf("the operands are %v and %v: structurally equal = %v, the script says %v", lv.val, rv.val, want, out.answer(vals.Encode))})
 				}
+			}
+		}
+	}
+	// switches with many clauses of several literal labels of mixed kinds: the clause taken is the first, in order, holding a label that == says
+	// the subject equals (the same script computes that with an if / else-if chain and returns both answers)
+	// ... and switches whose clauses all END in a literal of one kind (integers / strings) while an earlier label of a clause is of another kind
+	for _, fam := range []struct {
+		firsts, lasts, subjects []string
+	}{
+		{[]string{"\"4\"", "6.0", "\"8\"", "true", "\"12.0\"", "nil", "14.0", "\"x\""}, []string{"5", "7", "9", "11", "13", "15", "17", "19"}, []string{"4", "6", "8", "1", "12", "14", "5", "19", "20", "\"4\"", "6.0", "nil", "true"}},
+		{[]string{"4", "6.5", "8", "true", "12", "nil", "0", "1"}, []string{"\"a\"", "\"b\"", "\"c\"", "\"d\"", "\"e\"", "\"f\"", "\"g\"", "\"h\""}, []string{"\"4\"", "\"6.5\"", "\"8\"", "\"true\"", "\"12\"", "\"a\"", "\"h\"", "\"0\"", "\"1\"", "4", "true"}},
+	} {
+		for _, subj := range fam.subjects {
+			var sw, chain strings.Builder
+			sw.WriteString("switch " + subj + " {\n")
+			for k := range fam.firsts {
+				a, b := fam.firsts[k], fam.lasts[k]
+				fmt.Fprintf(&sw, "case %s, %s:\nb = %d\n", a, b, k)
+				kw := "} else if "
+				if k == 0 {
+					kw = "if "
+				}
+				fmt.Fprintf(&chain, "%s%s == %s || %s == %s {\na = %d\n", kw, subj, a, subj, b, k)
+			}
+			sw.WriteString("default:\nb = -1\n}")
+			chain.WriteString("} else {\na = -1\n}")
+			src := "a = nil\nb = nil\n" + chain.String() + "\n" + sw.String() + "\n[a, b]"
+			res, err, pv := execGuard(env.NewEnv(), src)
+			o.Sum.Evaluations++
+			o.Sum.Hist["big-switch-vs-equal"]++
+			pair, _ := res.([]interface{})
+			if pv != nil || err != nil || len(pair) != 2 || pair[0] != pair[1] {
+				o.Fail(Failure{Oracle: "switch-uses-eq", Key: "big-switch-vs-equal:" + subj, Input: src,
+					Detail: fmt.Sprintf("the if / else-if chain on == and the switch must take the same arm; [chain, switch] = %v (err %v, panic %v)", res, err, pv)})
+			}
+		}
+	}
+	bigPool := []string{"\"404\"", "404", "\"1.5\"", "1.5", "\"true\"", "true", "false", "\"\"", "0", "nil", "\"abc\"", "1", "\"1\"", "\"0\"", "1.0", "4", "\"4\"", "5", "6.0", "7", "\"x\"", "8"}
+	for _, subj := range bigPool {
+		for rot := 0; rot < 2; rot++ {
+			var sw, chain strings.Builder
+			sw.WriteString("switch " + subj + " {\n")
+			for k := 0; k+1 < len(bigPool); k += 2 {
+				a, b := bigPool[(k+rot)%len(bigPool)], bigPool[(k+1+rot)%len(bigPool)]
+				fmt.Fprintf(&sw, "case %s, %s:\nb = %d\n", a, b, k)
+				kw := "} else if "
+				if k == 0 {
+					kw = "if "
+				}
+				fmt.Fprintf(&chain, "%s%s == %s || %s == %s {\na = %d\n", kw, subj, a, subj, b, k)
+			}
+			sw.WriteString("default:\nb = -1\n}")
+			chain.WriteString("} else {\na = -1\n}")
+			src := "a = nil\nb = nil\n" + chain.String() + "\n" + sw.String() + "\n[a, b]"
+			res, err, pv := execGuard(env.NewEnv(), src)
+			o.Sum.Evaluations++
+			o.Sum.Hist["big-switch-vs-equal"]++
+			pair, _ := res.([]interface{})
+			if pv != nil || err != nil || len(pair) != 2 || pair[0] != pair[1] {
+				o.Fail(Failure{Oracle: "switch-uses-eq", Key: "big-switch-vs-equal:" + subj, Input: src,
+					Detail: fmt.Sprintf("the if / else-if chain on == and the switch must take the same arm; [chain, switch] = %v (err %v, panic %v)", res, err, pv)})
 			}
 		}
 	}
